@@ -85,6 +85,8 @@ class Engine(HeapMixin, ExprMixin, StmtMixin, CallMixin, BuiltinMixin):
             goal = z3.BoolVal(goal)
         import time
         t0 = time.time()
+        if p.guards:
+            goal = z3.Implies(z3.And(*p.guards) if len(p.guards) > 1 else p.guards[0], goal)
         g = z3.simplify(goal)
         if z3.is_true(g):
             verdict, model = 'proved', None
